@@ -12,7 +12,9 @@
   unchecked receive, two `Cmd.Wait` sites; Streamable: `handleSSEResponse` not closing the body, the listening
   stream's asynchronous start ignoring Close — all repaired in /repo).
   Handshake: `C08_close_takes_effect` (Close() runs whatever the client's state — fact `closeAny`, instance
-  `C08_close_unguarded`) with the witnesses `C08_close_skipped_witness`, `C08_close_during_handshake_witness`.
+  `C08_close_unguarded`) with the witnesses `C08_close_skipped_witness`, `C08_close_during_handshake_witness`; the legacy
+  SSE client's `start` stage (`C08_sse_start_bounded`, folded into `selCtx` / `selClosed` of `factsOf … .sse`) with
+  `C08_detached_wait_witness`, `C08_wait_without_close_case_witness`.
   Server-issued requests: `C08_server_pending_released` (instance `C08_server_inserts_deferred`) with
   `C08_server_pending_leak_witness`.
 -/
@@ -520,8 +522,9 @@ theorem C08_close_during_handshake_witness :
   refine ⟨_, rfl, ?_⟩; decide
 
 /-- Witness for a wait whose request is sent with a context detached from the caller's (the legacy SSE handshake's stream
-    request, `start`: `context.WithoutCancel(ctx)`; open finding `calls:sse:initialize_ignores_context_before_stream_headers`):
-    the caller's context ends and no case of the wait is ready; only Close() ends the call — with an error. -/
+    request as it was before /repo 0002846: `start` built it with `context.WithoutCancel(ctx)` and nothing else watched the
+    caller's context; finding `calls:sse:initialize_ignores_context_before_stream_headers`): the caller's context ends and
+    no case of the wait is ready; only Close() ends the call — with an error. -/
 theorem C08_detached_wait_witness :
     ∃ s, run { Facts.allGood with selCtx := false } { t := .sse, connected := false } (init { t := .sse, connected := false })
         [.issue 0, .ctxDone 0] = some s ∧ (s.calls 0).ctxDone = true ∧
@@ -529,6 +532,20 @@ theorem C08_detached_wait_witness :
       ∃ s', run { Facts.allGood with selCtx := false } { t := .sse, connected := false } s
         [.closeBegin, .closeEnd, .complete 0 .closedChan] = some s' ∧ (s'.calls 0).returned = some .err := by
   refine ⟨_, rfl, by decide, ?_, ⟨_, rfl, by decide⟩⟩
+  intro k; cases k <;> decide
+
+/-- Witness for a wait without a case that ends on Close() (the legacy SSE handshake's wait for the endpoint event as it was
+    before /repo 3e0df05: a select over the endpoint event, the caller's context and a timer; finding
+    `calls:sse:close_does_not_end_initialize_before_endpoint_event`): Close() runs to completion, closes the call's channel
+    and ends the reader, and no case of the wait is ready; the call ends only when its caller's context does. -/
+theorem C08_wait_without_close_case_witness :
+    ∃ s, run { Facts.allGood with selClosed := false } { t := .sse, connected := false } (init { t := .sse, connected := false })
+        [.issue 0, .closeBegin, .closeEnd, .readerExit] = some s ∧ s.closed = true ∧ s.reader = false ∧
+      (s.calls 0).chClosed = true ∧
+      (∀ k, step { Facts.allGood with selClosed := false } { t := .sse, connected := false } s (.complete 0 k) = none) ∧
+      ∃ s', run { Facts.allGood with selClosed := false } { t := .sse, connected := false } s
+        [.ctxDone 0, .complete 0 .ctx] = some s' ∧ (s'.calls 0).returned = some .err := by
+  refine ⟨_, rfl, by decide, by decide, by decide, ?_, ⟨_, rfl, by decide⟩⟩
   intro k; cases k <;> decide
 
 /-- Witness for a body that is not closed (D18): a Streamable call with an SSE answer returns at the result; after Close,
@@ -594,6 +611,12 @@ open Mcp.Gen.CallFacts in
 /-- (d) `Client.Close` and `StdioClient.Close` reach `transport.close()` under no condition but `transport != nil`. -/
 theorem C08_close_unguarded : ∀ c : Client, clTables.closeUnguarded.any (· = c) = true := by
   intro c; cases c <;> decide
+
+open Mcp.Gen.CallFacts in
+/-- (e) The legacy SSE client's `start`: the stream request is bounded by the caller's context while it is being established
+    (built with it, or cancelled by a goroutine that watches it), and the wait for the endpoint event has the case of the
+    stream's context, which Close() cancels.  Both are part of `factsOf clTables .sse` (`selCtx`, `selClosed`). -/
+theorem C08_sse_start_bounded : clTables.startBounded = true ∧ clTables.startSelStream = true := by decide
 
 open Mcp.Gen.CallFacts in
 /-- (b) Every function that obtains an `*http.Response` closes its body on every path or hands it to a function that
